@@ -90,8 +90,8 @@ PROPS = {
     "C19": {
         "level": "proof",
         "race": True,
-        "extract": ["Session", "Queues"],
-        "extra_modules": ["QiVerif.Props.C19Refresh"],
+        "extract": ["Session", "Queues", "Client"],
+        "extra_modules": ["QiVerif.Props.C19Refresh", "QiVerif.Tie.ClientCall"],
         "model_ops": c19_model_ops,
         "rule": "stress: N in {2,8,32} (thorough: up to 64) goroutines request proxies for 5 services behind 3 endpoints "
                 "(accept delayed 1-4 ms so that dial windows overlap) from one fresh session per round, call through each "
@@ -110,8 +110,8 @@ PROPS = {
     "C16": {
         "level": "proof",
         "race": True,
-        "extract": ["Service"],
-        "extra_modules": ["QiVerif.Props.C16Add"],
+        "extract": ["Service", "Signals"],
+        "extra_modules": ["QiVerif.Props.C16Add", "QiVerif.Tie.UpdateLoop"],
         "rule": "random histories (8-32 operations each) of Add / Remove (live, already removed, unknown id) / remote call "
                 "/ remote terminate (own id, 0, wrong id) / subscribe (one connection per subscriber) on a real service "
                 "hosted by a real server, followed by state snapshots (invocation and OnTerminate counters per object "
@@ -326,7 +326,7 @@ PROPS = {
         "level": "proof",
         "race": True,
         "extract": ["Calls", "Client", "Endpoint", "Auth"],
-        "extra_modules": ["QiVerif.Props.C04Forward"],
+        "extra_modules": ["QiVerif.Props.C04Forward", "QiVerif.Tie.ClientCall"],
         "rule": "(a) server side, exact: a real server with two probe services counting executions (a hand-written object "
                 "behind the generic object dispatcher: echo / zero-argument tick; the generated PingPong stub), raw frames "
                 "of every message type x known / unknown service, object, action x good / truncated / random arguments, one "
@@ -372,7 +372,7 @@ PROPS = {
     "C14": {
         "level": "proof",
         "race": True,
-        "extract": ["Property"],
+        "extract": ["Property", "Signals"],
         "extra_modules": ["QiVerif.Props.C14Events", "QiVerif.Props.C13Loop", "QiVerif.Tie.UpdateLoop"],
         "rule": "two real objects on a real server — the generated Bomb stub (delay: int32, validator) and a hand-written "
                 "object behind the generic object dispatcher with an int32, a string and a float property and its own "
